@@ -8,6 +8,8 @@ op lines (formats documented in lean/VerifModel/Driver/Nc.lean):
                                           with get_input, all attributes and a handful of scores compared -> same | diff[..]
   text2nc <seed> <dataset>                text file carrying <dataset> -> scripts/text2nc.py -> canonical line of the result
   detect <isNc> <validNetcdf> <validComps> <validText> <variant> <ext>   -> netcdf | comps | text | ERR
+  ncmixed <seed> <dimsA> <varsA> <attrsA> <dimsB> <varsB> <attrsB>      tables A and B, each written as text and as NetCDF;
+                                          Data([text A, text B]) vs [nc A, text B] vs [text A, nc B] vs [nc A, nc B] -> same | diff[..]
 """
 import atexit
 import math
@@ -24,12 +26,14 @@ import common
 from common import xr, xvec, from_xr, from_xvec
 
 ID = "C10"
-TARGETS = ["Proofs.C10"]
+TARGETS = ["Proofs.C10", "Proofs.C10Mixed"]
 GEN_PREFIXES = ["clean."]
 THEOREMS = {"Proofs.C10": ["VerifModel.C10." + t for t in [
     "C10_clean_assemble", "C10_same_dataset", "C10_missing_coordinate", "C10_nan_coordinate_unverified",
     "C10_nan_metadata_in_no_range",
-    "C10_text2nc", "C10_detect", "C10_valid_iff", "C10_optional_absent", "C10_optional_present"]]}
+    "C10_text2nc", "C10_detect", "C10_valid_iff", "C10_optional_absent", "C10_optional_present"]],
+    "Proofs.C10Mixed": ["VerifModel.C10." + t for t in [
+        "C10_mixed_congr", "C10_mixed_single", "C10_mixed_replace", "C10_mixed_reordered", "dataInput_dataset"]]}
 TRUSTED_BASE = [
     "Lean 4.33 kernel; axioms propext, Classical.choice, Quot.sound only",
     "the netCDF4 / HDF5 libraries (bytes <-> named arrays, masks, attributes): an external parameter of the model "
@@ -74,6 +78,15 @@ RULE = ("nc.read: generated tables (1-3 times / lead times / locations, unsorted
         "of obs / fcst exist (one table in ten has no obs or no fcst, every third table is converted a second time "
         "with its obs column, its fcst column or both removed); nc.detect: content variants x file "
         "extensions incl. malformed NetCDF files; non-trivial = some field holds a finite value")
+RULE += ("; nc.mixed: a text file and a NetCDF file in ONE verif.data.Data: two parts A, B of a generated master table (own "
+         "selection and order of times / lead times / locations, B with other forecasts, possibly without obs / pit / an other "
+         "field / cdf, other elevations, another variable name), each written as text and as NetCDF (per-cell missing encodings "
+         "of each format, extensions swapped in every second op); Data([text A, text B]), Data([NetCDF A, text B]), "
+         "Data([text A, NetCDF B]), Data([NetCDF A, NetCDF B]) must agree exactly in the verified dimensions, location metadata, "
+         "thresholds / quantiles, variable, get_scores of obs / fcst / pit / p.. / q.. / ensemble member / other fields for BOTH "
+         "inputs over the axes no / time / leadtime / location (first and last slice), obs+fcst pairs, mae / rmse / corr / ets / bs "
+         "and the CLI csv tables of -m mae -x leadtime, -m obs -x time, -m ets -r 1 -x location (numbers compared as numbers); "
+         "independently of every reader the verified dimensions must be the sorted common coordinates of the two tables")
 EXHAUSTIVE = {"quick": False, "thorough": False}
 LEVEL_TEXT = ("Lean theorems: every attribute of the assembled NetCDF input is util.clean of the stored variable (masked, NaN, "
               "-999, >1e30 -> NaN, anything else unchanged: C04_clean); for every well-formed table T and every choice of "
@@ -88,6 +101,21 @@ LEVEL_TEXT = ("Lean theorems: every attribute of the assembled NetCDF input is u
               "every rounding that leaves its numbers alone; the get_input decision table over content predicates (the function has no name argument); "
               "required dims/vars and the defaults of absent optional variables. Partial: the byte level of NetCDF, "
               "float32 rounding and the text reader (C09) are outside.")
+LEVEL_TEXT += (" Mixed formats (Proofs/C10Mixed.lean): Data on a list of files depends on each file only through its parsed "
+               "dataset (C10_mixed_congr); with the text reader's result for file j equal to datasetOf T, replacing file j by the "
+               "documented NetCDF layout of T (any missing-cell encodings) leaves the Data object and every getScores answer of "
+               "every input unchanged (C10_mixed_replace = C10_same_dataset + congruence), also when the text reader lists the "
+               "coordinates in another order (C10_mixed_reordered, via DataRefine.C02_order_irrelevant); for one NetCDF file the "
+               "mixed model is the ncData of stream nc.data (C10_mixed_single). The text reader is a parameter there: the bridge "
+               "from C09's Parsed to Dataset is not formalised and is what nc.text / nc.mixed test on real files.")
+TRUSTED_BASE = TRUSTED_BASE + [
+    "C10Mixed: parsedDataInput (= NcInput.dataInput, dataInput_dataset) is the view Data has of a parsed dataset: coordinates "
+    "and the 3-D fields obs / fcst / pit / other; threshold / quantile / ensemble fields are carried by the Dataset equality but "
+    "are not columns of the Data model's Input in this theorem (stream nc.mixed compares them on the real code)"]
+ASSUMPTIONS = ASSUMPTIONS + [
+    "nc.mixed: files with location ids and without missing COORDINATE entries (those cases are nc.text's, with their known "
+    "findings); CLI tables compare numbers as numbers: an absent lat / lon / altitude column is the int 0 in the text reader and "
+    "the float 0.0 in the NetCDF reader, printed `0` vs `0.0` in -type csv output (cosmetic, reported in MERGE_NOTES)"]
 TECHNIQUE = ("Lean 4 proof over a hand-written model of the NetCDF reader and text2nc (clean regenerated from source) + "
              "differential correspondence through real NetCDF/text files + cross-format and round-trip oracles")
 
@@ -789,6 +817,172 @@ def impl_nctext(op):
         os.remove(ptx)
 
 
+# ------------------------------------------------------------------ NetCDF and text inputs in ONE Data object
+def _cli_rows(files, args):
+    """verif <files> <args> -type csv, in-process: the data rows (the header carries the file names)"""
+    import contextlib
+    import io
+    import verif.driver
+    buf = io.StringIO()
+    try:
+        with contextlib.redirect_stdout(buf):
+            verif.driver.run(["verif"] + list(files) + list(args) + ["-type", "csv"])
+    except SystemExit:
+        return "ERR"
+    lines = buf.getvalue().strip().splitlines()
+    names = [os.path.basename(f) for f in files]
+    head = [l for l in lines if any(n in l for n in names)]          # the header row carries the file names
+    rows = [l for l in lines if not any(n in l for n in names)]
+    def norm(tok):
+        # numbers are compared as numbers: a default latitude / elevation is the int 0 in the text reader and the float
+        # 0.0 in the NetCDF reader, printed `0` and `0.0` (the same metadata)
+        try:
+            return xr(float(tok))
+        except ValueError:
+            return tok.replace(" ", "_")
+    return "%dhdr|" % len(head) + "|".join(",".join(norm(t) for t in l.split(",")) for l in rows) if lines else "-"
+
+
+def mixed_lines(paths, TA, TB):
+    """everything C10 compares on Data([get_input(p) for p in paths]): verified dimensions, location metadata,
+    thresholds / quantiles, a menu of get_scores requests and metrics for BOTH inputs, CLI csv tables"""
+    import verif.data
+    import verif.field
+    import verif.axis
+    import verif.metric
+    import verif.interval
+    inputs = []
+    out = []
+    try:
+        for q in paths:
+            kind, inp = get_input(q)
+            if inp is None:
+                return ["KIND:%s" % kind]
+            inputs.append(inp)
+        out.append("opened")
+        try:
+            data = verif.data.Data(inputs)
+        except SystemExit:
+            return ["ERR init"]
+        out.append("T=" + xvec(np.array(data.times, float)))
+        out.append("L=" + xvec(np.array(data.leadtimes, float)))
+        out.append("X=" + ",".join("%s:%s:%s:%s" % (xr(float(l.id)), xr(float(l.lat)), xr(float(l.lon)), xr(float(l.elev)))
+                                   for l in data.locations))
+        out.append("thr=" + xvec(np.array(data.thresholds, float)))
+        out.append("qtl=" + xvec(np.array(data.quantiles, float)))
+        out.append("var=%s|%s" % (data.variable.name, data.variable.units))
+        fields = [("obs", verif.field.Obs()), ("fcst", verif.field.Fcst())]
+        if all(T["x0"] is None and T["x1"] is None for T in (TA, TB)):
+            fields.append(("pit", verif.field.Pit()))      # (with x0/x1 verif randomises the PIT: not comparable)
+        thr = sorted(set(TA["thr"]) | set(TB["thr"]))
+        qtl = sorted(set(TA["qtl"]) | set(TB["qtl"]))
+        for t in thr[:2]:
+            fields.append(("thr%s" % xr(t), verif.field.Threshold(t)))
+        for q in qtl[:2]:
+            fields.append(("qtl%s" % xr(q), verif.field.Quantile(q)))
+        fields.append(("ens0", verif.field.Ensemble(0)))
+        for n in sorted(set(TA["others"]) | set(TB["others"]))[:2]:
+            fields.append((n, verif.field.Other(n)))
+        nlast = {"time": len(data.times) - 1, "leadtime": len(data.leadtimes) - 1, "location": len(data.locations) - 1}
+        axes = [("no", None), ("time", 0), ("leadtime", 0), ("location", 0)] + [(a, k) for a, k in sorted(nlast.items()) if k > 0]
+
+        def call(f):
+            try:
+                r = f()
+            except SystemExit:
+                return "ERR"
+            except Exception as e:
+                return "EXC:" + type(e).__name__
+            if isinstance(r, list):
+                return ";".join(xvec(np.array(a, float).flatten()) for a in r)
+            return xvec(np.array(r, float).flatten())
+        for i in range(len(inputs)):
+            for nm, f in fields:
+                for ax, k in (axes if nm in ("obs", "fcst") else axes[:2]):
+                    out.append("%d:%s@%s%s=%s" % (i, nm, ax, "" if k is None else k,
+                                                  call(lambda: data.get_scores(f, i, verif.axis.get(ax), k))))
+            for ax, k in axes[:1] + axes[2:4]:
+                out.append("%d:obs+fcst@%s=%s" % (i, ax, call(
+                    lambda: data.get_scores([verif.field.Obs(), verif.field.Fcst()], i, verif.axis.get(ax), k))))
+            for mname in ("mae", "rmse", "corr"):
+                out.append("%d:%s=%s" % (i, mname, call(
+                    lambda: verif.metric.get(mname).compute(data, i, verif.axis.get("leadtime"), None))))
+            out.append("%d:ets=%s" % (i, call(lambda: verif.metric.get("ets").compute(
+                data, i, verif.axis.get("no"), verif.interval.Interval(1.0, np.inf, False, False)))))
+            if thr:
+                out.append("%d:bs=%s" % (i, call(lambda: verif.metric.get("bs").compute(
+                    data, i, verif.axis.get("no"), verif.interval.Interval(-np.inf, thr[0], True, True)))))
+    finally:
+        for inp in inputs:
+            close_input(inp)
+    out.append("cli-mae=" + _cli_rows(paths, ["-m", "mae", "-x", "leadtime"]))
+    out.append("cli-obs=" + _cli_rows(paths, ["-m", "obs", "-x", "time"]))
+    out.append("cli-ets=" + _cli_rows(paths, ["-m", "ets", "-r", "1", "-x", "location"]))
+    return out
+
+
+def impl_ncmixed(op):
+    a = op.split(" ")
+    rng = random.Random(int(a[1]))
+    descr = [dec_nc(*a[2:5]), dec_nc(*a[5:8])]
+    tabs, files = [], []
+    try:
+        for k, (dims, variables, attrs) in enumerate(descr):
+            T = table_of(dims, variables, attrs)
+            u = T["raw_units"]
+            T["text_units"] = None if u in (None, "") else (u if u == "%" else "$" + u.replace("_", " ") + "$")
+            # the extension says nothing about the content (every second op has them swapped)
+            swap = rng.random() < 0.5
+            pnc = fresh("%s_netcdf.%s" % ("AB"[k], "txt" if swap else "nc"))
+            ptx = fresh("%s_text.%s" % ("AB"[k], "nc" if swap else "txt"))
+            write_nc(pnc, dims, variables, attrs, unlimited=rng.random() < 0.5)
+            write_text(T, ptx, rng)
+            tabs.append(T)
+            files.append({"t": ptx, "n": pnc})
+        res = {}
+        for combo in ("tt", "nt", "tn", "nn"):
+            res[combo] = mixed_lines([files[0][combo[0]], files[1][combo[1]]], tabs[0], tabs[1])
+        # independent of every reader: the verified dimensions are the sorted common coordinate values of the two tables
+        ref = res["tt"]
+        if ref and ref[0] == "opened":
+            exp = ["T=" + xvec(sorted(set(tabs[0]["times"]) & set(tabs[1]["times"]))),
+                   "L=" + xvec(sorted(set(tabs[0]["leads"]) & set(tabs[1]["leads"]))),
+                   "X=" + ",".join("%s:%s:%s:%s" % tuple(xr(float(v)) for v in l) for l in sorted(tabs[0]["locs"])
+                                   if l[0] in set(m[0] for m in tabs[1]["locs"]))]
+            for combo in ("tt", "nt", "tn", "nn"):
+                if res[combo][1:4] != exp:
+                    bad = [i for i in range(3) if res[combo][1 + i: 2 + i] != exp[i: i + 1]][0]
+                    return "diff[%s] Data([%s]) verifies %s, the tables have in common %s" % (
+                        _sig_str({"kind": "mixed-dims", "combo": combo, "part": "TLX"[bad]}), combo,
+                        res[combo][1 + bad][:200] if len(res[combo]) > 1 + bad else res[combo], exp[bad][:200])
+        elif ref == ["ERR init"]:
+            common_ok = all(set(tabs[0][k]) & set(tabs[1][k]) for k in ("times", "leads")) and (
+                set(l[0] for l in tabs[0]["locs"]) & set(l[0] for l in tabs[1]["locs"]))
+            if common_ok:
+                return "diff[%s] Data([text, text]) exits although the tables share times, lead times and locations" % (
+                    _sig_str({"kind": "mixed-dims", "combo": "tt", "part": "init"}))
+        names = {"t": "text", "n": "NetCDF"}
+        for combo in ("nt", "tn", "nn"):
+            got = res[combo]
+            for x, y in zip(ref, got):
+                if x != y:
+                    part = x.split("=")[0].split("@")[0]
+                    part = part.split(":")[-1] if part[:1].isdigit() else part
+                    return "diff[%s] Data([%s A, %s B]) gives %s, Data([text A, text B]) gives %s" % (
+                        _sig_str({"kind": "mixed", "combo": combo, "part": part}), names[combo[0]], names[combo[1]],
+                        y[:160].replace(" ", "_"), x[:160].replace(" ", "_"))
+            if len(ref) != len(got):
+                return "diff[%s] Data([%s A, %s B]): %d results, Data([text A, text B]): %d" % (
+                    _sig_str({"kind": "mixed", "combo": combo, "part": "count"}), names[combo[0]], names[combo[1]],
+                    len(got), len(ref))
+        return "same" if ref[:1] == ["opened"] else "same:" + ref[0].replace(" ", "_")
+    finally:
+        for f in files:
+            for q in f.values():
+                if os.path.exists(q):
+                    os.remove(q)
+
+
 def run_text2nc(src, dst, sub):
     script = os.path.join(common.REPO, "scripts", "text2nc.py")
     if sub:
@@ -918,6 +1112,8 @@ def impl(op):
             return impl_ncdata(op)
         if head == "nctext":
             return impl_nctext(op)
+        if head == "ncmixed":
+            return impl_ncmixed(op)
         if head == "text2nc":
             return impl_text2nc(op)
         if head == "detect":
@@ -926,7 +1122,7 @@ def impl(op):
 
 
 def cmp(op, impl_out, model_out):
-    if op.startswith("nctext "):
+    if op.startswith("nctext ") or op.startswith("ncmixed "):
         return True          # implementation-only cross-format relation (the theorem is C10_same_dataset; text side C09)
     return impl_out == model_out
 
@@ -937,6 +1133,8 @@ def lean_op(op):
         return " ".join(a[:5])
     if a[0] == "text2nc":
         return "text2nc " + a[2]
+    if a[0] == "ncmixed":
+        return "ncmixed"          # implementation-only relation; the theorems are C10_mixed_replace / _reordered
     return op
 
 
@@ -981,6 +1179,10 @@ def judge(op, impl_out, spec_out):
         first = impl_out.split(" ;;")[0]
         sig = _sig_parse(first[first.index("[") + 1:first.index("]")])
         return (sig, first)
+    if a[0] == "ncmixed":
+        if impl_out.startswith("same"):
+            return None
+        return (_sig_parse(impl_out[impl_out.index("[") + 1:impl_out.index("]")]), impl_out[:600])
     if a[0] == "text2nc":
         if not impl_out.startswith("T="):
             return ({"kind": "text2nc", "case": "failed"}, "text2nc gave %s" % impl_out[:200])
@@ -1009,6 +1211,8 @@ def judge(op, impl_out, spec_out):
 
 
 def nontrivial(op, out):
+    if op.startswith("ncmixed"):
+        return out == "same"          # (same:ERR_init = no common coordinates: the trivial agreement)
     if op.startswith("ncdata"):
         return out.startswith("T=") and any(ch.isdigit() for ch in out.split(";obs=")[1])
     if op.startswith("ncvars") or op.startswith("text2nc"):
@@ -1213,6 +1417,43 @@ def table_as_dataset(T, rng):
             "name": (T["name"] or "Unknown variable").replace("_", " "), "units": units, "x0": T["x0"], "x1": T["x1"]}
 
 
+def sub_table(M, rng, second):
+    """a table holding part of master table M: a non-empty selection of its times / lead times / locations in an order
+    of its own (coverage and coordinate order differ between the files of one Data object); `second`: the forecasts are
+    other numbers, fields may be absent (obs are then borrowed from the first input), location metadata may differ"""
+    def pick(n):
+        idx = rng.sample(range(n), n if rng.random() < 0.5 else rng.randint(1, n))
+        return sorted(idx) if rng.random() < 0.3 else idx
+    it, il, ix = pick(len(M["times"])), pick(len(M["leads"])), pick(M["nx"])
+    U = dict(M)
+    U["times"] = [M["times"][i] for i in it]
+    U["leads"] = [M["leads"][i] for i in il]
+    U["nx"] = len(ix)
+    for k in ("ids", "lats", "lons", "elevs"):
+        U[k] = None if M[k] is None else [M[k][i] for i in ix]
+
+    def cutf(a):
+        return None if a is None else np.array(a[np.ix_(it, il, ix)], float)
+    for k in ("obs", "fcst", "pit", "cdf", "x", "ens"):
+        U[k] = cutf(M[k])
+    U["others"] = {n: cutf(a) for n, a in M["others"].items()}
+    if second:
+        if U["fcst"] is not None:
+            U["fcst"] = U["fcst"] + rng.choice([0.5, -1.0, 0.125])
+        if U["obs"] is not None and U["fcst"] is not None and rng.random() < 0.3:
+            U["obs"] = None
+        if rng.random() < 0.3:
+            U["pit"] = None
+        if U["others"] and rng.random() < 0.4:
+            U["others"].pop(sorted(U["others"])[0])
+        if rng.random() < 0.2 and (U["obs"] is not None or U["fcst"] is not None):
+            U["thr"], U["cdf"] = [], None
+        if U["elevs"] is not None and rng.random() < 0.3:
+            U["elevs"] = [e + 1.0 for e in U["elevs"]]          # Data takes the metadata of the FIRST input
+        U["name"] = rng.choice([M["name"], "Other"])
+    return U
+
+
 def gen_ops(tier, rng):
     n = 150 if tier == "quick" else 3000
     for k in range(n):
@@ -1223,6 +1464,19 @@ def gen_ops(tier, rng):
         D = table_of(dims, variables, attrs)
         if text_expressible(D):
             yield "nc.text", "nctext %d %s" % (rng.randrange(10 ** 6), enc)
+        if k % 2 == 1 and (tier == "quick" or k % 10 == 1):          # quick: 75 ops, thorough: 600 (0.3 s each)
+            # a text file and a NetCDF file in ONE Data object: two parts of a master table, each written in both formats
+            M = gen_table(rng)
+            if M["ids"] is None:
+                M["ids"] = [float(i) for i in rng.sample([0, 1, 3, 7, 18700, 99999, -5], M["nx"])]
+            if M["obs"] is None and M["fcst"] is None:
+                M["obs"] = np.array([[[_val(rng) for _ in range(M["nx"])] for _ in M["leads"]] for _ in M["times"]], float)
+            encs = []
+            for second in (False, True):
+                dd, vv, aa = table_to_nc(sub_table(M, rng, second), rng)
+                encs.append((enc_nc(dd, vv, aa), text_expressible(table_of(dd, vv, aa))))
+            if all(ok for _, ok in encs):
+                yield "nc.mixed", "ncmixed %d %s %s" % (rng.randrange(10 ** 6), encs[0][0], encs[1][0])
         if k % 3 == 0:
             # reader-only variants: ignored variables, missing optional groups
             d2, v2, a2 = table_to_nc(T, rng, text_compatible=False)
